@@ -3,6 +3,9 @@ package main
 // Acts of AkaSession.tla: EAP-AKA' attribute setter, AT_MAC computation on built and on received packets, PRF'.
 
 import (
+	"crypto/hmac"
+	"crypto/sha256"
+	"sort"
 	"github.com/free5gc/ike/eap"
 )
 
@@ -70,10 +73,42 @@ func actAkaMarshal(e *Env, a J) J {
 	b, err := p.Marshal()
 	o := errObs(err)
 	if err == nil {
-		o["wire"] = octOf(b)
+		// the order in which attributes are emitted is the encoder's choice (the properties prescribe none): the encoding is compared
+		// with the reference encoding attribute by attribute, both in ascending type order; emitting twice gives the same octets
+		o["wire"] = octOf(akaCanon(b))
+		b2, err2 := p.Marshal()
+		o["twice"] = err2 == nil && string(b) == string(b2)
 	}
 	o["attrs"] = akaState(p)
 	return o
+}
+
+// akaCanon: an EAP packet carrying EAP-AKA' (type 50) with its attributes -- split structurally at (type, length in words) -- in
+// ascending type order (stable); anything that does not split cleanly is returned as it is
+func akaCanon(b []byte) []byte {
+	if len(b) < 8 || b[4] != 50 {
+		return b
+	}
+	type at struct {
+		t byte
+		v []byte
+	}
+	var ats []at
+	rest := b[8:]
+	for len(rest) > 0 {
+		if len(rest) < 2 || rest[1] == 0 || int(rest[1])*4 > len(rest) {
+			return b
+		}
+		n := int(rest[1]) * 4
+		ats = append(ats, at{rest[0], rest[:n]})
+		rest = rest[n:]
+	}
+	sort.SliceStable(ats, func(i, j int) bool { return ats[i].t < ats[j].t })
+	out := append([]byte{}, b[:8]...)
+	for _, a := range ats {
+		out = append(out, a.v...)
+	}
+	return out
 }
 
 func actAkaCalcMac(e *Env, a J) J {
@@ -81,10 +116,22 @@ func actAkaCalcMac(e *Env, a J) J {
 	if p == nil {
 		return J{"infra": "aka_calcmac: no object"}
 	}
-	mac, err := p.CalcEapAkaPrimeAtMAC(gox(a, "key"))
+	key := gox(a, "key")
+	mac, err := p.CalcEapAkaPrimeAtMAC(key)
 	o := errObs(err)
 	if err == nil {
 		o["mac"] = octOf(mac)
+		// the code is HMAC-SHA-256-128 over the packet AS IT IS SENT with the AT_MAC value zeroed: over the octets this object emits
+		// now (the computation leaves AT_MAC zeroed), whatever order it emits its attributes in; those octets are a legal encoding of
+		// the attribute map (refwire: compared with the reference encoding in ascending type order)
+		if w, werr := p.Marshal(); werr == nil {
+			h := hmac.New(sha256.New, key)
+			h.Write(w)
+			o["macok"] = string(h.Sum(nil)[:16]) == string(mac)
+			o["refwire"] = octOf(akaCanon(w))
+		} else {
+			o["macok"] = false
+		}
 	}
 	return o
 }
